@@ -11,7 +11,7 @@ PROPS = sorted(f[:-3] for f in os.listdir(os.path.join(V, "rules")) if re.match(
 
 def patches():
     out = []
-    for d in ("benign", "benign2", "benign3", "benign4"):
+    for d in ("benign", "benign2", "benign3", "benign4", "benign5"):
         for p in sorted(glob.glob(os.path.join(V, d, "*.diff"))):
             out.append(("B:" + d + "/" + os.path.basename(p)[:-5], p))
     for p in sorted(glob.glob(os.path.join(V, "seeded", "*", "patch.diff"))):
